@@ -21,7 +21,9 @@ import (
 	"fmt"
 	"os"
 	"os/exec"
+	"net/url"
 	"path/filepath"
+	"sort"
 	"strconv"
 	"strings"
 
@@ -135,9 +137,32 @@ func (g *lsGen) fenceLine() string {
 	return ind + strings.Repeat(ch, 2+r.Intn(5)) + info
 }
 
+var lsSoup = []string{"<div>", "</div>", "<script>", "</script>", "<b>", "</b>", "<style>", "</style>", "<textarea>", "</textarea>", "<br>", "<p>", "</p>",
+	"<!--", "-->", "<![CDATA[", "]]>", "<?", "?>", "<!X", ">", "<x/>", "</x>", "<SCRIPT>", "</Script>", "<div", "\"", "'", "`", "``", "[", "]", " "}
+
+// soupLine: nested, crossed and unclosed tags, raw text elements and comment-like
+// constructs between links
+func (g *lsGen) soupLine() string {
+	r := g.c.Rng
+	var b strings.Builder
+	n := 2 + r.Intn(7)
+	for i := 0; i < n; i++ {
+		if r.Intn(4) == 0 {
+			b.WriteString([]string{"[a](b)", "[c](d \"t\")", "[e](<f g>)"}[r.Intn(3)])
+		} else {
+			b.WriteString(g.pick(lsSoup))
+		}
+	}
+	b.WriteString("[z](y)")
+	return b.String()
+}
+
 func (g *lsGen) line() string {
 	r := g.c.Rng
-	switch k := r.Intn(20); {
+	switch k := r.Intn(22); {
+	case k >= 20:
+		g.c.Count("gen line: HTML tag soup")
+		return g.soupLine()
 	case k < 8:
 		g.c.Count("gen line: inline fragments")
 		return g.inlineLine()
@@ -263,6 +288,12 @@ func lsFixedDocs() []string {
 	for o := 1; o <= 4; o++ {
 		for cl := 1; cl <= 4; cl++ {
 			out = append(out, strings.Repeat("`", o)+" [a](b) "+strings.Repeat("`", cl)+" [c](d)")
+		}
+	}
+	// crossed and nested HTML tags with raw text elements
+	for _, a := range []string{"div", "b", "script", "style", "textarea"} {
+		for _, b := range []string{"div", "b", "script", "style", "textarea", "p"} {
+			out = append(out, "<"+a+"><"+b+"></"+a+"></"+b+">[a](b)", "<"+a+"><"+b+"></"+a+">[a](b)</"+b+">[c](d)", "<"+a+">\n<"+b+">\n</"+a+">\n[a](b)\n</"+b+">\n[c](d)")
 		}
 	}
 	out = append(out, "", "\n", "\n\n", "\r\n", "[a](b)\n", "[a](b)\r\n[c](d)\r\n", "[a]\n(b)", "[a](b\n)", "[a](b \"t\n\")", "<!--\n[a](b)\n-->\n[c](d)", "<script>\n[a](b)\n</script>\n[c](d)", "<div>\n[a](b)\n</div>\n[c](d)")
@@ -444,19 +475,19 @@ func init() {
 			c.Add("document bytes", len(d))
 			c.Add("document lines", strings.Count(d, "\n")+1)
 		}
-		// 4. documents on which the model and the implementation differ: to the sweep
+		// 4. documents on which the model and the implementation differ: to the sweep, with the model's result
 		got := runDriver(scanLines)
-		var focus []string
+		var focus []focusEntry
 		for i := range docs {
 			if got[i] != wants[i] {
-				focus = append(focus, Hx(docs[i]))
+				focus = append(focus, focusEntry{Src: Hx(docs[i]), Model: got[i]})
 			}
 		}
 		c.Add("documents on which model and implementation differ", len(focus))
 		if len(focus) > 0 {
-			sortByLen(focus)
-			if len(focus) > 40 {
-				focus = focus[:40]
+			sort.SliceStable(focus, func(a, b int) bool { return len(focus[a].Src) < len(focus[b].Src) })
+			if len(focus) > 60 {
+				focus = focus[:60]
 			}
 			data, _ := json.Marshal(focus)
 			os.MkdirAll("build", 0o755)
@@ -467,13 +498,42 @@ func init() {
 	})
 }
 
-func sortByLen(l []string) {
-	for i := 1; i < len(l); i++ {
-		for j := i; j > 0 && len(l[j]) < len(l[j-1]); j-- {
-			l[j], l[j-1] = l[j-1], l[j]
-		}
-	}
+type focusEntry struct {
+	Src   string `json:"src"`   // hex
+	Model string `json:"model"` // the driver's result line for linkScan
 }
+
+// decodeModel reads "ok:" hex(count2 (start4 stop4 len2 text)* output) into a result
+func decodeModel(line string) *ldResult {
+	if !strings.HasPrefix(line, "ok:") {
+		return &ldResult{Panic: "model: " + line}
+	}
+	b := []byte(Unhx(line[3:]))
+	if len(b) < 2 {
+		return &ldResult{Panic: "model: short result"}
+	}
+	n := int(b[0])<<8 | int(b[1])
+	b = b[2:]
+	r := &ldResult{}
+	for i := 0; i < n; i++ {
+		if len(b) < 10 {
+			return &ldResult{Panic: "model: short result"}
+		}
+		st := int(b[0])<<24 | int(b[1])<<16 | int(b[2])<<8 | int(b[3])
+		sp := int(b[4])<<24 | int(b[5])<<16 | int(b[6])<<8 | int(b[7])
+		tl := int(b[8])<<8 | int(b[9])
+		if len(b) < 10+tl {
+			return &ldResult{Panic: "model: short result"}
+		}
+		r.List = append(r.List, []string{strconv.Itoa(st), strconv.Itoa(sp), Hxb(b[10 : 10+tl])})
+		b = b[10+tl:]
+	}
+	r.Out = Hxb(b)
+	return r
+}
+
+// focusModel: the model's result for the documents of the focus file
+var focusModel = map[string]*ldResult{}
 
 // focusDocs returns the documents recorded by the last C29-scan-cases run on
 // which the model and the implementation differed (none on an unchanged tree).
@@ -482,13 +542,53 @@ func focusDocs() []ldDoc {
 	if err != nil {
 		return nil
 	}
-	var hs []string
-	if json.Unmarshal(data, &hs) != nil {
+	var es []focusEntry
+	if json.Unmarshal(data, &es) != nil {
 		return nil
 	}
 	var out []ldDoc
-	for _, h := range hs {
-		out = append(out, ldDoc{Unhx(h), ""})
+	for _, e := range es {
+		src := Unhx(e.Src)
+		focusModel[src] = decodeModel(e.Model)
+		out = append(out, ldDoc{src, ""})
 	}
 	return out
+}
+
+// evalResult evaluates checks 1 to 4 of the sweep (and 5 when the second
+// application is given) on one result for src; "" when it passes.
+func evalResult(c *Ctx, src string, r ldResult, s2 *ldResult) (sig, why string) {
+	if r.Panic != "" || r.Err != "" {
+		return "replace-panic", r.Panic + r.Err
+	}
+	out := Unhx(r.Out)
+	if sp, ok := splice(src, r.List); !ok || sp != out {
+		return "output-is-not-the-splice", "the output differs from the source with the collected ranges replaced"
+	}
+	before := cmParse([]byte(src))
+	isDest := map[string]bool{}
+	for _, x := range before.dests {
+		isDest[x] = true
+	}
+	for _, e := range r.List {
+		st, _ := strconv.Atoi(e[0])
+		sp, _ := strconv.Atoi(e[1])
+		if !isDest[cmUnescape([]byte(src[st:sp]))] {
+			return "range-is-not-a-destination", fmt.Sprintf("replaced %q, which is not the destination of a link, image or reference definition for goldmark", src[st:sp])
+		}
+	}
+	after := cmParse([]byte(out))
+	if sig, why := compareViews(c, before, after); sig != "" {
+		return sig, why
+	}
+	for _, e := range r.List {
+		rep := cmUnescape([]byte(Unhx(e[2])))
+		if u, err := url.Parse(rep); err != nil || u.Scheme == "" || u.Host == "" {
+			return "not-absolute", fmt.Sprintf("replacement %q is not an absolute URL", rep)
+		}
+	}
+	if s2 != nil && (s2.Panic != "" || Unhx(s2.Out) != out) {
+		return "not-idempotent", fmt.Sprintf("second application gives %q", Unhx(s2.Out))
+	}
+	return "", ""
 }
